@@ -60,7 +60,7 @@ func VerifC29_Search() {
 	maxKeys := verifrt.Int("maxKeys", 0, n+1)
 	hint := ""
 	hinted := verifrt.Int("hint", -2, n-1) // -2: none, -1: a name that matches nothing, i: key i
-	shortHint := hinted == 1 // key 1 is hinted by a prefix of its ID, the others by the full ID
+	shortHint := hinted == 1               // key 1 is hinted by a prefix of its ID, the others by the full ID
 	switch {
 	case hinted == -1:
 		hint = "zz"
